@@ -5,6 +5,7 @@ use std::sync::Arc;
 
 use bevy::prelude::*;
 use bevy_enhanced_input::input_context::context_instance::ActionsData;
+use bevy_enhanced_input::input_context::input_condition::DEFAULT_ACTUATION;
 use bevy_enhanced_input::prelude::*;
 
 use crate::num::{fmt_state, fmt_value};
@@ -234,9 +235,25 @@ pub fn build_mod(spec: &ModSpec) -> Box<dyn InputModifier> {
 
 pub fn build_cond(spec: &CondSpec) -> Box<dyn InputCondition> {
     match *spec {
+        // the default actuation through `Default` / by not calling `with_actuation`, every other one explicitly
+        CondSpec::Press(act) if act == DEFAULT_ACTUATION => Box::new(Press::default()),
+        CondSpec::JustPress(act) if act == DEFAULT_ACTUATION => Box::new(JustPress::default()),
+        CondSpec::Release(act) if act == DEFAULT_ACTUATION => Box::new(Release::default()),
         CondSpec::Press(act) => Box::new(Press::new(act)),
         CondSpec::JustPress(act) => Box::new(JustPress::new(act)),
         CondSpec::Release(act) => Box::new(Release::new(act)),
+        CondSpec::Hold {
+            time,
+            one_shot,
+            act,
+            rel,
+        } if act == DEFAULT_ACTUATION => Box::new(Hold::new(time).one_shot(one_shot).relative_speed(rel)),
+        CondSpec::HoldRel { time, act, rel } if act == DEFAULT_ACTUATION => {
+            Box::new(HoldAndRelease::new(time).relative_speed(rel))
+        }
+        CondSpec::Tap { time, act, rel } if act == DEFAULT_ACTUATION => {
+            Box::new(Tap::new(time).relative_speed(rel))
+        }
         CondSpec::Hold {
             time,
             one_shot,
@@ -272,11 +289,12 @@ pub fn build_cond(spec: &CondSpec) -> Box<dyn InputCondition> {
         CondSpec::Chord(a) => {
             with_act!(a, A => Box::new(Chord::<Act<A>>::default()) as Box<dyn InputCondition>)
         }
-        CondSpec::BlockBy(a, events_only) => with_act!(a, A => {
-            let mut condition = BlockBy::<Act<A>>::default();
-            condition.events_only = events_only;
-            Box::new(condition) as Box<dyn InputCondition>
-        }),
+        CondSpec::BlockBy(a, true) => {
+            with_act!(a, A => Box::new(BlockBy::<Act<A>>::events_only()) as Box<dyn InputCondition>)
+        }
+        CondSpec::BlockBy(a, false) => {
+            with_act!(a, A => Box::new(BlockBy::<Act<A>>::default()) as Box<dyn InputCondition>)
+        }
         CondSpec::SScript(kind, ref script) => Box::new(SScript {
             kind,
             script: script.clone(),
